@@ -171,6 +171,15 @@ def gen_histories(rng, n, steps):
             k = rng.choice(c)
             return k - k % 2 if t == "n" else k
 
+        if hno % 3 == 0:
+            # opening aimed at the print path of a mapped character array: free space a whole number of work chunks,
+            # texts that fit / just do not fit (inputs only; what must happen is the specification's business)
+            k = rng.choice([1, 1, 2, 3])
+            room = 64 * k
+            beh.append({"a": "mnew", "arg": {"h": 1, "data": fresh(PAGE - HDR - room), "imm": 0, "nc": 0, "typ": "c"}})
+            for n in rng.sample([room, room + 1, room + 64, room - 1], 2) + [rng.choice([room - 1, room, 1])]:
+                beh.append({"a": "printf", "arg": {"h": 1, "data": fresh(n)}})
+            est[0], typ[0], kind[0] = PAGE - HDR - room, "c", "map"
         for _ in range(steps):
             h = rng.randrange(NHT - 1)
             r = rng.random()
